@@ -60,7 +60,7 @@ var (
 	// has not returned, a handler that has not returned, a router that is left)
 	// becomes a verdict only if it still holds this long after the normal bound;
 	// every timer of those workloads is below 100 ms
-	PersistT = 20 * time.Second
+	PersistT = 30 * time.Second
 	Quiesce  = 2 * time.Second
 )
 
